@@ -284,6 +284,35 @@ func (h *hist) refVisible(t int, k []byte, now uint64) *refWrite {
 	return w
 }
 
+// versionDropped: some committed version of k is no longer stored anywhere (a compaction dropped
+// it). Finding F10 needs that: without a dropped entry every version is still there to be found.
+func (h *hist) versionDropped(k []byte) bool {
+	have := map[uint64]bool{}
+	for _, lv := range h.db.VerifDump() {
+		for _, t := range lv {
+			for _, e := range t.Entries {
+				if bytes.Equal(e.Key, k) {
+					have[e.Version] = true
+				}
+			}
+		}
+	}
+	mt, imm := h.db.VerifMemEntries()
+	for _, l := range append(imm, mt) {
+		for _, e := range l {
+			if bytes.Equal(e.Key, k) {
+				have[e.Version] = true
+			}
+		}
+	}
+	for _, w := range h.ref {
+		if bytes.Equal(w.Key, k) && !have[w.Ver] {
+			return true
+		}
+	}
+	return false
+}
+
 func (h *hist) sigFor(k []byte) string {
 	// classify by root-cause pattern visible in the history (see known_findings.jsonl)
 	seen := map[uint64]int{}
@@ -309,7 +338,7 @@ func (h *hist) sigFor(k []byte) string {
 		var maxv uint64
 		for _, w := range h.ref {
 			if bytes.Equal(w.Key, k) {
-				if w.Ver < maxv {
+				if w.Ver < maxv && h.versionDropped(k) {
 					return "F10-managed-older-version-written-later-after-compaction"
 				}
 				if w.Ver > maxv {
